@@ -21,8 +21,10 @@ PROPS = {
     },
     "C03": {
         "level": "proof",
+        "manifest_level": "other",
         "trusted": ["conversions.convert (dimension gate, asked unit, Decimal preservation): contract assumed here, see C04"],
-        "explanation": "Contracts on _add.._div (Decimal lattice), Quantity * / ** unary + - (dimension homomorphism through the C01 invariant, Decimal "
+        "explanation": "Deductive proof of every obligation except one recorded finding (Quantity.__rtruediv__/post:dimension-inverse, pinned by the test "
+                       "suite), hence level 'other' rather than 'proof'. Contracts on _add.._div (Decimal lattice), Quantity * / ** unary + - (dimension homomorphism through the C01 invariant, Decimal "
                        "preservation, left unit), exceptional postconditions for different dimensions. Quantity.__rtruediv__ is a recorded finding.",
     },
     "C11": {
